@@ -244,6 +244,10 @@ class EVPN(NLRI):
             ld_value_hex = struct.pack('!I', ld_value)
             esi_data_hex = b'\x05' + as_num_hex + ld_value_hex + b'\x00'
 
+        else:
+            # no ESI at all would shift every field behind it
+            raise ValueError('unknown ESI type %r' % (esi_type,))
+
         return esi_data_hex
 
 
